@@ -164,7 +164,13 @@ def run_property(pid, root=None, tier="quick", seed=0, only_rules=None, prog=Non
     res["instances"] = [i.as_dict() for i in ctx.instances]
     res["stats"] = ctx.stats
     res["evaluations"] = ctx.evaluations
-    res["analysed"] = sorted(ctx.analysed)
+    # what was looked at: the sites named by the rules plus the source location of every rule instance
+    sites = set(ctx.analysed)
+    for i in ctx.instances:
+        if i.where:
+            sites.add(str(i.where))
+    res["analysed"] = sorted(sites)[:600]
+    res["stats"]["instance_sites"] = len(sites)
     res["wall_s"] = time.time() - t0
     if res["status"] != "error" and res["violations"]:
         res["status"] = "violation"
